@@ -70,6 +70,18 @@ Definition to_int64 (x : dbl) : Z :=
   | _ => MININT
   end.
 
+(* int64(math.Round(x)) on amd64: round half away from zero, then the conversion above *)
+Definition to_int64_round (x : dbl) : Z :=
+  match x with
+  | DFin neg m e =>
+    let v := if (0 <=? e)%Z then m * pow2 (Z.to_N e)
+             else let d := pow2 (Z.to_N (- e)) in
+                  let q := m / d in let r := m mod d in
+                  if d <=? 2 * r then q + 1 else q in
+    if P63 <=? v then MININT else if neg then (- Z.of_N v)%Z else Z.of_N v
+  | _ => MININT
+  end.
+
 Definition w64z (z : Z) : Z := (z mod Z.of_N P64)%Z.
 Definition s64z (z : Z) : Z := if (z <? Z.of_N P63)%Z then z else (z - Z.of_N P64)%Z.
 Definition wrap64 (z : Z) : Z := s64z (w64z z).
